@@ -148,10 +148,11 @@ def _check_partition(env, df, ent, ext, dmax, dmin, n, d1=None, dsq=None):
     rows = [row(df, j) for j in range(df.shape[0])]
     chains = {}
     for r in rows:
-        chains.setdefault(float(r["object_id"]), []).append(r)
-    for o, mem in chains.items():
+        chains.setdefault((float(r["tomo_id"]), float(r["object_id"])), []).append(r)
+    for (t_, o), mem in chains.items():
         orders = sorted(float(m["geom2"]) for m in mem)
-        env.check("chain_o%d_orders_1_to_k" % o, env.true() if orders == [float(k + 1) for k in range(len(mem))] else _false(env))
+        env.check("chain_t%d_o%d_orders_1_to_k" % (t_, o), env.true() if orders == [float(k + 1) for k in range(len(mem))] else _false(env))
+        env.check("chain_t%d_o%d_within_one_tomogram" % (t_, o), env.true() if all(float(ent[int(float(m["subtomo_id"])) - 1]["tomo_id"]) == t_ for m in mem) else _false(env))
         mem = sorted(mem, key=lambda m: float(m["geom2"]))
         for a, b in zip(mem[:-1], mem[1:]):
             ia, ib = int(float(a["subtomo_id"])) - 1, int(float(b["subtomo_id"])) - 1
@@ -162,7 +163,34 @@ def _check_partition(env, df, ent, ext, dmax, dmin, n, d1=None, dsq=None):
             env.check(tag + "_distance_recorded", env.and_(env.eq(a["geom4"] * a["geom4"], dd), env.ge(a["geom4"], 0.0)))
         # a chain's LAST member carries no link distance of its own only if it never had a successor; what the property
         # fixes is the recorded value of every link (above)
-    env.note("chains", sorted((k, [int(float(m["subtomo_id"])) for m in sorted(v, key=lambda m: float(m["geom2"]))]) for k, v in chains.items()))
+    env.note("chains", sorted((str(k), [int(float(m["subtomo_id"])) for m in sorted(v, key=lambda m: float(m["geom2"]))]) for k, v in chains.items()))
+
+
+def h_two_tomograms(env):
+    """Object numbers restart in every tomogram: a merge in the SECOND tomogram (q0-q1 must be put in front of q2-q3, which were
+    listed and traced first) must not touch the chain of the first tomogram that carries the same object number."""
+    rb = env.module("ribana")
+    cm = env.module("cryomotl")
+    dmax = env.real("dmax", 2.5, 6)
+    g = env.real("g", 0.5, 2.4)
+    L = 4.0                                                   # particle length
+    # tomogram 1: a straight chain of four, listed in order (links g)
+    t1 = [(k * (L + g), k * (L + g) + L) for k in range(4)]
+    # tomogram 2: the same chain listed as q2, q3, q0, q1
+    t2 = [t1[2], t1[3], t1[0], t1[1]]
+    P = [(1.0, a, b) for a, b in t1] + [(2.0, a, b) for a, b in t2]
+    n = len(P)
+    ent = [{"tomo_id": P[i][0], "subtomo_id": float(i + 1), "x": P[i][1], "y": 0.0, "z": 0.0} for i in range(n)]
+    ext = [{"tomo_id": P[i][0], "subtomo_id": float(i + 1), "x": P[i][2], "y": 0.0, "z": 0.0} for i in range(n)]
+
+    def d1(a, b):
+        return ext[a]["x"] - ent[b]["x"]
+    out = rb.trace_chains(mk_motl(env, cm, ent), mk_motl(env, cm, ext), dmax, 0.0)
+    _check_partition(env, out.df, ent, ext, dmax, 0.0, n, d1)
+    df = out.df
+    for t_ in (1.0, 2.0):
+        objs = set(float(df["object_id"].iloc[j]) for j in range(df.shape[0]) if float(df["tomo_id"].iloc[j]) == t_)
+        env.check("tomogram_%d_is_one_chain_of_four" % t_, env.true() if len(objs) == 1 else _false(env))
 
 
 def h_scenario(env, kind="head_cut_then_append", order=(0, 1, 2, 3)):
@@ -271,7 +299,7 @@ def jobs(tier, seed):
     nf = 6 if tier == "quick" else 60
     fams = [("h_family", {"fam": seed * 1000 + f, "n": 5 if f % 2 == 0 else 4, "sym": [f % 4], "min_zero": f % 3 != 0}) for f in range(nf)]
     scen = [("h_scenario", {"kind": "head_cut_then_append"}), ("h_scenario", {"kind": "prefix_kept"}), ("h_scenario", {"kind": "both_sides"}),
-            ("h_scenario3d", {"kind": "tail_cut"}), ("h_scenario3d", {"kind": "both_sides_head_cut"}), ("h_scenario3d", {"kind": "ring"})]
+            ("h_scenario3d", {"kind": "tail_cut"}), ("h_scenario3d", {"kind": "both_sides_head_cut"}), ("h_scenario3d", {"kind": "ring"}), ("h_two_tomograms", {})]
     if tier == "thorough":
         scen += [("h_scenario", {"kind": k, "order": list(o)}) for k in ("head_cut_then_append", "prefix_kept", "both_sides") for o in itertools.permutations(range(4)) if list(o) != [0, 1, 2, 3] and (k != "both_sides" or o[0] < o[1])]
     j = j[:2] + scen + fams + j[2:]
